@@ -83,26 +83,21 @@ var _ *multierror.Error
 //@      (forall f string :: has(ext, f) ==> allocated(ext[f]) && arr(ext[f]) != arr(raw))
 //@   && (forall f string, g string :: has(ext, f) && has(ext, g) && f != g ==> arr(ext[f]) != arr(ext[g]))
 
-// Error-list clauses. "named": every merge error (ModuleTransformationSingleError) carries the name of one of the input
-// files OR NO NAME (what the code achieves; known defect F-07b: "file is not a module" has no file); "named_all" is the
-// statement of C07/C16: it carries the name of one of the input files. Both are written out in the clauses (they
-// refer to the entry value of `modules`, which a spec function cannot).
-// Every entry is a merge error (fails: syntax errors of a file are spliced in as they are and carry no file at all).
-//@ spec errsAllMerge(errs []error) bool =
-//@   forall i int :: 0 <= i && i < len(errs) ==> is(errs[i], *ModuleTransformationSingleError)
+// Error-list clauses. "named_all" is the statement of C07/C16: every merge error (ModuleTransformationSingleError)
+// carries the name of one of the input files (F-07b, fixed: "file is not a module" used to carry none). It is written
+// out in the clauses (it refers to the entry value of `modules`, which a spec function cannot).
+// (Not stated: "every entry is a merge error". The syntax errors of a file that does not parse are spliced in as they
+// are (*OpenFgaDslSyntaxError, module-to-model.go:87) and carry a position but no file; C07/C16 speak of the conflict
+// errors, so demanding a file on those entries would ask for more than the property states. Observation O-07d.)
 
 //@ func TransformModuleFilesToModel
 //@   props C07 C12 C16 C08
 //@   ensures error_no_model: err != nil ==> result0 == nil
 //@   ensures error_shape: err != nil ==> is(err, *ModuleValidationMultipleError) && len(dyn(err, *ModuleValidationMultipleError).Errors) >= 1
 //@   ensures parse_failure_reported: (exists j int :: 0 <= j && j < len(modules) && parseFails(old(modules[j].Contents))) ==> err != nil
-//@   ensures merge_errors_name_file_or_none: err != nil ==> (forall i int :: 0 <= i && i < len(dyn(err, *ModuleValidationMultipleError).Errors) && is(dyn(err, *ModuleValidationMultipleError).Errors[i], *ModuleTransformationSingleError) ==> allocated(dyn(dyn(err, *ModuleValidationMultipleError).Errors[i], *ModuleTransformationSingleError)) && (dyn(dyn(err, *ModuleValidationMultipleError).Errors[i], *ModuleTransformationSingleError).File == "" || (exists j int :: 0 <= j && j < len(modules) && old(modules[j].Name) == dyn(dyn(err, *ModuleValidationMultipleError).Errors[i], *ModuleTransformationSingleError).File)))
 //@   ensures merge_errors_name_file: err != nil ==> (forall i int :: 0 <= i && i < len(dyn(err, *ModuleValidationMultipleError).Errors) && is(dyn(err, *ModuleValidationMultipleError).Errors[i], *ModuleTransformationSingleError) ==> allocated(dyn(dyn(err, *ModuleValidationMultipleError).Errors[i], *ModuleTransformationSingleError)) && (exists j int :: 0 <= j && j < len(modules) && old(modules[j].Name) == dyn(dyn(err, *ModuleValidationMultipleError).Errors[i], *ModuleTransformationSingleError).File))
-//@   ensures all_errors_are_merge_errors: err != nil ==> errsAllMerge(dyn(err, *ModuleValidationMultipleError).Errors)
 //@   loop 1 invariant errs: transformErrors != nil && fresh(transformErrors) && len(transformErrors.Errors) >= 0 && (arr(transformErrors.Errors) == 0 || allocated(transformErrors.Errors))
-//@   loop 1 invariant named: (forall i int :: 0 <= i && i < len(transformErrors.Errors) && is(transformErrors.Errors[i], *ModuleTransformationSingleError) ==> allocated(dyn(transformErrors.Errors[i], *ModuleTransformationSingleError)) && (dyn(transformErrors.Errors[i], *ModuleTransformationSingleError).File == "" || (exists j int :: 0 <= j && j < len(modules) && old(modules[j].Name) == dyn(transformErrors.Errors[i], *ModuleTransformationSingleError).File)))
 //@   loop 1 invariant named_all: (forall i int :: 0 <= i && i < len(transformErrors.Errors) && is(transformErrors.Errors[i], *ModuleTransformationSingleError) ==> allocated(dyn(transformErrors.Errors[i], *ModuleTransformationSingleError)) && (exists j int :: 0 <= j && j < len(modules) && old(modules[j].Name) == dyn(transformErrors.Errors[i], *ModuleTransformationSingleError).File))
-//@   loop 1 invariant all_merge: errsAllMerge(transformErrors.Errors)
 //@   loop 1 invariant failed_reported: (exists j int :: 0 <= j && j < $i && parseFails(old(modules[j].Contents))) ==> len(transformErrors.Errors) >= 1
 //@   loop 1 invariant mods: forall j int :: 0 <= j && j < len(modules) ==> modules[j] == old(modules[j])
 //@   loop 1 invariant raw_ok: rawOK(rawTypeDefs)
@@ -112,9 +107,7 @@ var _ *multierror.Error
 //@   loop 1.1 invariant errs: transformErrors != nil && fresh(transformErrors) && len(transformErrors.Errors) >= 0 && (arr(transformErrors.Errors) == 0 || allocated(transformErrors.Errors)) && transformErrors == pre(transformErrors)
 //@   loop 1.1 invariant grow: len(transformErrors.Errors) >= pre(len(transformErrors.Errors))
 //@   loop 1.1 invariant cur: let k = $i_1 :: 0 <= k && k < len(modules) && module.Name == old(modules[k].Name)
-//@   loop 1.1 invariant named: (forall i int :: 0 <= i && i < len(transformErrors.Errors) && is(transformErrors.Errors[i], *ModuleTransformationSingleError) ==> allocated(dyn(transformErrors.Errors[i], *ModuleTransformationSingleError)) && (dyn(transformErrors.Errors[i], *ModuleTransformationSingleError).File == "" || (exists j int :: 0 <= j && j < len(modules) && old(modules[j].Name) == dyn(transformErrors.Errors[i], *ModuleTransformationSingleError).File)))
 //@   loop 1.1 invariant named_all: (forall i int :: 0 <= i && i < len(transformErrors.Errors) && is(transformErrors.Errors[i], *ModuleTransformationSingleError) ==> allocated(dyn(transformErrors.Errors[i], *ModuleTransformationSingleError)) && (exists j int :: 0 <= j && j < len(modules) && old(modules[j].Name) == dyn(transformErrors.Errors[i], *ModuleTransformationSingleError).File))
-//@   loop 1.1 invariant all_merge: errsAllMerge(transformErrors.Errors)
 //@   loop 1.1 invariant raw_ok: rawOK(rawTypeDefs)
 //@   loop 1.1 invariant sep: extSep(extendedTypeDefs, rawTypeDefs)
 //@   loop 1.1 invariant sep_mdl: arr(mdl.GetTypeDefinitions()) != arr(rawTypeDefs) && (forall f string :: has(extendedTypeDefs, f) ==> arr(extendedTypeDefs[f]) != arr(mdl.GetTypeDefinitions()))
@@ -125,22 +118,16 @@ var _ *multierror.Error
 //@   loop 1.3 invariant errs: transformErrors != nil && fresh(transformErrors) && len(transformErrors.Errors) >= 0 && (arr(transformErrors.Errors) == 0 || allocated(transformErrors.Errors)) && transformErrors == pre(transformErrors)
 //@   loop 1.3 invariant grow: len(transformErrors.Errors) >= pre(len(transformErrors.Errors))
 //@   loop 1.3 invariant cur: let k = $i_1 :: 0 <= k && k < len(modules) && module.Name == old(modules[k].Name)
-//@   loop 1.3 invariant named: (forall i int :: 0 <= i && i < len(transformErrors.Errors) && is(transformErrors.Errors[i], *ModuleTransformationSingleError) ==> allocated(dyn(transformErrors.Errors[i], *ModuleTransformationSingleError)) && (dyn(transformErrors.Errors[i], *ModuleTransformationSingleError).File == "" || (exists j int :: 0 <= j && j < len(modules) && old(modules[j].Name) == dyn(transformErrors.Errors[i], *ModuleTransformationSingleError).File)))
 //@   loop 1.3 invariant named_all: (forall i int :: 0 <= i && i < len(transformErrors.Errors) && is(transformErrors.Errors[i], *ModuleTransformationSingleError) ==> allocated(dyn(transformErrors.Errors[i], *ModuleTransformationSingleError)) && (exists j int :: 0 <= j && j < len(modules) && old(modules[j].Name) == dyn(transformErrors.Errors[i], *ModuleTransformationSingleError).File))
-//@   loop 1.3 invariant all_merge: errsAllMerge(transformErrors.Errors)
 //@   loop 2 invariant errs: transformErrors != nil && fresh(transformErrors) && len(transformErrors.Errors) >= 0 && (arr(transformErrors.Errors) == 0 || allocated(transformErrors.Errors)) && transformErrors == pre(transformErrors)
 //@   loop 2 invariant grow: len(transformErrors.Errors) >= pre(len(transformErrors.Errors))
-//@   loop 2 invariant named: (forall i int :: 0 <= i && i < len(transformErrors.Errors) && is(transformErrors.Errors[i], *ModuleTransformationSingleError) ==> allocated(dyn(transformErrors.Errors[i], *ModuleTransformationSingleError)) && (dyn(transformErrors.Errors[i], *ModuleTransformationSingleError).File == "" || (exists j int :: 0 <= j && j < len(modules) && old(modules[j].Name) == dyn(transformErrors.Errors[i], *ModuleTransformationSingleError).File)))
 //@   loop 2 invariant named_all: (forall i int :: 0 <= i && i < len(transformErrors.Errors) && is(transformErrors.Errors[i], *ModuleTransformationSingleError) ==> allocated(dyn(transformErrors.Errors[i], *ModuleTransformationSingleError)) && (exists j int :: 0 <= j && j < len(modules) && old(modules[j].Name) == dyn(transformErrors.Errors[i], *ModuleTransformationSingleError).File))
-//@   loop 2 invariant all_merge: errsAllMerge(transformErrors.Errors)
 //@   loop 2 invariant raw_ok: rawOK(rawTypeDefs)
 //@   loop 2 invariant ef_named: forall i int :: 0 <= i && i < len(extendingFiles) ==> (exists j int :: 0 <= j && j < len(modules) && old(modules[j].Name) == extendingFiles[i])
 //@   loop 2.1 invariant errs: transformErrors != nil && fresh(transformErrors) && len(transformErrors.Errors) >= 0 && (arr(transformErrors.Errors) == 0 || allocated(transformErrors.Errors)) && transformErrors == pre(transformErrors)
 //@   loop 2.1 invariant grow: len(transformErrors.Errors) >= pre(len(transformErrors.Errors))
 //@   loop 2.1 invariant file_named: exists j int :: 0 <= j && j < len(modules) && old(modules[j].Name) == filename
-//@   loop 2.1 invariant named: (forall i int :: 0 <= i && i < len(transformErrors.Errors) && is(transformErrors.Errors[i], *ModuleTransformationSingleError) ==> allocated(dyn(transformErrors.Errors[i], *ModuleTransformationSingleError)) && (dyn(transformErrors.Errors[i], *ModuleTransformationSingleError).File == "" || (exists j int :: 0 <= j && j < len(modules) && old(modules[j].Name) == dyn(transformErrors.Errors[i], *ModuleTransformationSingleError).File)))
 //@   loop 2.1 invariant named_all: (forall i int :: 0 <= i && i < len(transformErrors.Errors) && is(transformErrors.Errors[i], *ModuleTransformationSingleError) ==> allocated(dyn(transformErrors.Errors[i], *ModuleTransformationSingleError)) && (exists j int :: 0 <= j && j < len(modules) && old(modules[j].Name) == dyn(transformErrors.Errors[i], *ModuleTransformationSingleError).File))
-//@   loop 2.1 invariant all_merge: errsAllMerge(transformErrors.Errors)
 //@   loop 2.1 invariant raw_ok: rawOK(rawTypeDefs)
 //@   loop 2.1 invariant ef_named: forall i int :: 0 <= i && i < len(extendingFiles) ==> (exists j int :: 0 <= j && j < len(modules) && old(modules[j].Name) == extendingFiles[i])
 //@   loop 2.1.2 invariant sep_str: arr(existingRelationNames) != arr(extendingFiles)
@@ -150,9 +137,7 @@ var _ *multierror.Error
 //@   loop 2.1.4 invariant errs: transformErrors != nil && fresh(transformErrors) && len(transformErrors.Errors) >= 0 && (arr(transformErrors.Errors) == 0 || allocated(transformErrors.Errors)) && transformErrors == pre(transformErrors)
 //@   loop 2.1.4 invariant grow: len(transformErrors.Errors) >= pre(len(transformErrors.Errors))
 //@   loop 2.1.4 invariant file_named: exists j int :: 0 <= j && j < len(modules) && old(modules[j].Name) == filename
-//@   loop 2.1.4 invariant named: (forall i int :: 0 <= i && i < len(transformErrors.Errors) && is(transformErrors.Errors[i], *ModuleTransformationSingleError) ==> allocated(dyn(transformErrors.Errors[i], *ModuleTransformationSingleError)) && (dyn(transformErrors.Errors[i], *ModuleTransformationSingleError).File == "" || (exists j int :: 0 <= j && j < len(modules) && old(modules[j].Name) == dyn(transformErrors.Errors[i], *ModuleTransformationSingleError).File)))
 //@   loop 2.1.4 invariant named_all: (forall i int :: 0 <= i && i < len(transformErrors.Errors) && is(transformErrors.Errors[i], *ModuleTransformationSingleError) ==> allocated(dyn(transformErrors.Errors[i], *ModuleTransformationSingleError)) && (exists j int :: 0 <= j && j < len(modules) && old(modules[j].Name) == dyn(transformErrors.Errors[i], *ModuleTransformationSingleError).File))
-//@   loop 2.1.4 invariant all_merge: errsAllMerge(transformErrors.Errors)
 //@   -- C12 (order independence of the condition pass): the names visited by loop 1.3 are exactly the keys of the parsed
 //@   -- condition map, in ascending order - a description that mentions no map iteration order (loop 1.2 ranges over the
 //@   -- map in an arbitrary order and only feeds slices.Sort)
